@@ -22,7 +22,7 @@ PROPS = {
 ATTACHMENTS = ['a', 'a2']
 VALUES = {
     's': ['alpha', 'Beta gamma', 'x', '[[t]]', '{[[m]]}'], 't': ['tee', 'T', '[[s]]'], 'm': ['m1', 'm2', 'm3', '[[t]]'], 'b': ['true', 'false'], 'bm': ['true', 'false'],
-    'd1': ['2020-01-01T10:00:00.000000Z', '1999-12-31T23:59:59.999999Z'], 'd2': ['2020-01-02T11:30:15.000000Z', '2021-03-04T05:06:07.123456Z'],
+    'd1': ['2020-01-01T10:00:00.000000Z', '1999-12-31T23:59:59.999999Z'], 'd2': ['2020-01-02T11:30:15.000000Z', '2021-03-04T05:06:07.123456Z', '2020-01-01T10:00:00.000000Z', '2020-01-01T10:00:07.500000Z'],
     'f': ['1.500000E+00', '-2.500000E-03', '1.000000E+10'], 'g': ['52.123456,4.123456', '-10.500000,-20.250000'], 'n': ['0', '7', '255'],
 }
 TEXTS = ['', ' ', 'was seen by ', ', ', ' and ', 'X', ' (', ')', ' [x] ', ': ', '.', ' - ', 'é ', '100% ', 'a]b', 'a[b',
@@ -59,7 +59,8 @@ def gen_placeholder(rng, valid_bias=0.85):
     elif kind == 'date_time':
         args = [rng.choice(['d1', 'd2']), rng.choice(ACCURACY)] if ok else rng.choice([['d1'], ['s', 'year'], ['d1', 'decade'], ['zz', 'year']])
     elif kind in ('time_span', 'duration'):
-        args = ['d1', 'd2'] if ok else rng.choice([['d1'], ['d1', 's'], ['d1', 'd2', 'x'], ['zz', 'd2']])
+        # also the same property twice (an empty duration) and the later instant first
+        args = rng.choice([['d1', 'd2'], ['d1', 'd2'], ['d1', 'd1'], ['d2', 'd1']]) if ok else rng.choice([['d1'], ['d1', 's'], ['d1', 'd2', 'x'], ['zz', 'd2']])
     else:
         args = [rng.choice(ATTACHMENTS)] if ok else rng.choice([['zz'], [], ['a', 'x']])
     if not ok and rng.random() < 0.2:
